@@ -62,8 +62,17 @@ SKIPPED_NOPRED: list = []
 def model(repo, paired):
     key = ("builder-model", paired)
     if key not in repo.cache:
-        repo.cache[key] = analyse_builder(repo, paired)
-    return repo.cache[key]
+        before = set(getattr(repo, "touched", set()))
+        repo.touched = set()
+        try:
+            mdl = analyse_builder(repo, paired)
+        finally:
+            consulted = set(repo.touched)
+            repo.touched = before | consulted
+        repo.cache[key] = (mdl, consulted)
+    mdl, consulted = repo.cache[key]
+    repo.touched = set(getattr(repo, "touched", set())) | consulted
+    return mdl
 
 
 def _step_kind(repo, cls_name):
